@@ -98,7 +98,13 @@ fn main() {
         Some("imem") => {
             let txt = std::fs::read_to_string(&args[2]).expect("replay file");
             let j: serde_json::Value = serde_json::from_str(&txt).expect("json");
-            println!("{}", imem::replay(&j));
+            println!("{}", imem::replay(&j, "imem"));
+        }
+        Some("sqlite") => {
+            // the same script format, on the real SqliteStorage in a temporary directory
+            let txt = std::fs::read_to_string(&args[2]).expect("replay file");
+            let j: serde_json::Value = serde_json::from_str(&txt).expect("json");
+            println!("{}", imem::replay(&j, "sqlite"));
         }
         _ => {
             eprintln!("usage: vreplay urgency <versions|days> <target> <measure> | vreplay k <scenario> <file>");
